@@ -174,13 +174,24 @@ func c06(r *core.Run) {
 
 	// ---- D2 doTake ----
 	doTake := p.Func(cachePkg, "node", "doTake")
+	// The take body is, by role, the function value created by doTake that calls the query
+	// callback (a function literal, or a bound method value over a group of former locals);
+	// doTake's parameters are recognised inside it through the creation site of the closure.
+	tk := newC06Env(doTake)
 	var takeBody *ssa.Function
-	isQuery := core.CallOfValue(core.CapturedParam(doTake, 4))
-	isCacheVal := core.CallOfValue(core.CapturedParam(doTake, 5))
+	isQuery := core.CallOfValue(core.Or2(core.CapturedParam(doTake, 4), tk.isParam(4)))
+	isCacheVal := core.CallOfValue(core.Or2(core.CapturedParam(doTake, 5), tk.isParam(5)))
 	isGetCache := core.CallMethod("cache.node", "doGetCache")
+	isDoEx := core.CallMethod("syncx.SingleFlight", "DoEx")
 	if doTake != nil {
-		for _, a := range doTake.AnonFuncs {
-			if len(core.Instrs(a, isQuery)) > 0 {
+		handed := map[*ssa.Function]bool{}
+		for _, b := range core.Calls(doTake, isDoEx) {
+			if args := core.Args(b); len(args) >= 3 {
+				handed[tk.funcOf(args[2])] = true
+			}
+		}
+		for _, a := range tk.closures() {
+			if len(core.Instrs(a, isQuery)) > 0 && (takeBody == nil || handed[a] || !handed[takeBody]) {
 				takeBody = a
 			}
 		}
@@ -266,20 +277,34 @@ func c06(r *core.Run) {
 		}
 	})
 	r.Check("D2/K8/inside-barrier", "the query and cacheVal callbacks run only inside the closure handed to barrier.DoEx, keyed by the cache key", func(o *core.O) {
-		if !o.Need(doTake != nil && takeBody != nil, "node.doTake") {
+		if !o.Need(doTake != nil, "node.doTake") {
 			return
 		}
-		direct := core.Instrs(doTake, core.CallOfValue(func(v ssa.Value) bool { _, ok := v.(*ssa.Parameter); return ok }))
+		direct := core.Instrs(doTake, core.Or(core.CallOfValue(func(v ssa.Value) bool { _, ok := v.(*ssa.Parameter); return ok }), isQuery, isCacheVal))
 		for _, d := range direct {
+			o.Site(1, core.FuncName(doTake))
 			o.Fail(p.InstrPos(d), "doTake calls a callback outside the single-flight barrier")
 		}
-		bar := core.Calls(doTake, core.CallMethod("syncx.SingleFlight", "DoEx"))
+		if !o.Need(takeBody != nil, "the closure of node.doTake that runs the query") {
+			return
+		}
+		// nor may any other closure doTake creates (outside the take body) run them
+		inside := tk.within(takeBody)
+		for _, g := range tk.closures() {
+			if inside[g] {
+				continue
+			}
+			for _, d := range core.Instrs(g, core.Or(isQuery, isCacheVal)) {
+				o.Fail(p.InstrPos(d), "a callback of doTake runs in a closure that is not the single-flight body")
+			}
+		}
+		bar := core.Calls(doTake, isDoEx)
 		o.Site(len(bar), core.FuncName(doTake))
 		ok := false
 		for _, b := range bar {
 			args := core.Args(b)
 			if len(args) >= 3 {
-				if mc, isMC := args[2].(*ssa.MakeClosure); isMC && mc.Fn == takeBody && core.ParamAt(doTake, 3)(args[1]) {
+				if tk.funcOf(args[2]) == takeBody && core.ParamAt(doTake, 3)(args[1]) {
 					ok = true
 				}
 			}
@@ -373,7 +398,8 @@ func c06(r *core.Run) {
 		}
 		a := &core.Alg{Name: core.ParamIndexName}
 		n := 0
-		for _, g := range core.WithAnon(f) {
+		// the function literals and bound method values QueryRowIndexCtx creates, by creation site
+		for _, g := range c06Union(core.WithAnon(f), newC06Env(f).fns) {
 			r.Fn(core.FuncName(g))
 			for _, c := range core.Calls(g, core.CallMethod("cache.Cache", "SetWithExpireCtx")) {
 				n++
@@ -394,26 +420,39 @@ func c06(r *core.Run) {
 			return
 		}
 		r.Fn(core.FuncName(f))
-		dels := core.Instrs(f, core.CallMethod("redis.Redis", "DelCtx"))
+		// The delete step is DelCtx's own code or a function literal DelCtx creates and applies
+		// itself (one visit closure run once per batch): in either, the failing arm of the DEL must
+		// pass asyncRetryDelCache before that step ends (return of the step, or the next DEL).
+		isDel := core.CallMethod("redis.Redis", "DelCtx")
 		isRetry := core.CallMethod("cache.node", "asyncRetryDelCache")
-		o.Site(len(dels), core.FuncName(f))
-		if len(dels) == 0 {
-			o.Fail(p.Pos(f.Pos()), "DelCtx never deletes")
-		}
-		for _, d := range dels {
-			_, failArm := core.EdgesOf(f, core.ErrNil(1, core.Is(d)))
-			if len(failArm) == 0 {
-				o.Fail(p.InstrPos(d), "the delete error is never tested")
+		de := newC06Env(f)
+		ndel := 0
+		for _, g := range de.fns {
+			dels := core.Instrs(g, isDel)
+			if len(dels) == 0 || (g != f && !de.calledIn(g)) {
 				continue
 			}
-			var from []core.At
-			for _, e := range failArm {
-				from = append(from, core.Head(e.To))
+			ndel += len(dels)
+			o.Site(len(dels), core.FuncName(g))
+			for _, d := range dels {
+				_, failArm := core.EdgesOf(g, core.ErrNil(1, core.Is(d)))
+				if len(failArm) == 0 {
+					o.Fail(p.InstrPos(d), "the delete error is never tested")
+					continue
+				}
+				var from []core.At
+				for _, e := range failArm {
+					from = append(from, core.Head(e.To))
+				}
+				// stop at the next delete (loop iteration) or a return
+				if w, ok := core.Reach(core.Q{From: from, Target: core.Or(core.IsReturn, core.Is(d)), Blocked: isRetry}); ok {
+					o.Fail(p.InstrPos(w), "a failed delete (%s) is not handed to asyncRetryDelCache", p.InstrPos(d))
+				}
 			}
-			// stop at the next delete (loop iteration) or a return
-			if w, ok := core.Reach(core.Q{From: from, Target: core.Or(core.IsReturn, core.Is(d)), Blocked: isRetry}); ok {
-				o.Fail(p.InstrPos(w), "a failed delete (%s) is not handed to asyncRetryDelCache", p.InstrPos(d))
-			}
+		}
+		if ndel == 0 {
+			o.Site(0, core.FuncName(f))
+			o.Fail(p.Pos(f.Pos()), "DelCtx never deletes")
 		}
 		// asyncRetryDelCache registers a clean task that deletes the same keys
 		g := p.Func(cachePkg, "node", "asyncRetryDelCache")
@@ -570,7 +609,9 @@ func c06(r *core.Run) {
 			o.Site(len(gets), core.FuncName(f))
 			for _, g := range gets {
 				key := core.Args(g)[1]
-				keyRoot := core.Strip(key)
+				// the key as a value: a parameter captured by a function literal is read through a
+				// single-store cell on both sides
+				keyRoot := c06Root(key)
 				node := func(v ssa.Value) bool { return core.IsResult(v, 0, core.Is(g)) }
 				// calls on the node (invoke on cache.Cache whose receiver derives from this Get)
 				used := false
@@ -585,7 +626,7 @@ func c06(r *core.Run) {
 					// some argument must be (derived from) the dispatched key
 					okKey := false
 					for _, a := range c.Common().Args {
-						if core.DependsOn(a, func(v ssa.Value) bool { return core.Strip(v) == keyRoot }) {
+						if core.DependsOn(a, func(v ssa.Value) bool { return c06Root(v) == keyRoot }) {
 							okKey = true
 						}
 					}
@@ -603,7 +644,7 @@ func c06(r *core.Run) {
 						o.Fail(p.InstrPos(g), "%s: the node returned by dispatcher.Get is never used", core.FuncName(f))
 					}
 					for _, m := range mu {
-						if !core.DependsOn(m.(*ssa.MapUpdate).Value, func(v ssa.Value) bool { return core.Strip(v) == keyRoot }) {
+						if !core.DependsOn(m.(*ssa.MapUpdate).Value, func(v ssa.Value) bool { return c06Root(v) == keyRoot }) {
 							o.Fail(p.InstrPos(m), "%s: a key is grouped under a node it was not dispatched to", core.FuncName(f))
 						}
 					}
@@ -757,7 +798,7 @@ func c06(r *core.Run) {
 			v := core.Strip(core.Result(ret, 0))
 			if c, i := core.ResultOf(v); c != nil && i == 0 && core.Short(core.CalleeName(c)) == "lib/jsonx.Marshal" {
 				n++
-				if !core.CapturedParam(doTake, 2)(core.Args(c)[0]) {
+				if a0 := core.Args(c)[0]; !core.CapturedParam(doTake, 2)(a0) && !tk.isParam(2)(a0) {
 					o.Fail(p.InstrPos(ret), "the flight marshals something other than the destination value")
 				}
 			} else if !core.IsNil(v) {
@@ -916,21 +957,24 @@ func c06(r *core.Run) {
 			}
 		}
 		// index: both the write and the final read are keyed by keyer(primaryKey)
+		ge := newC06Env(g)
 		isKeyer := func(v ssa.Value) bool {
 			c, ok := v.(*ssa.Call)
 			if !ok {
 				return false
 			}
-			return core.CallOfValue(core.ParamOrCaptured(g, 4))(c)
+			return core.CallOfValue(core.Or2(core.ParamOrCaptured(g, 4), ge.isParam(4)))(c)
 		}
-		n := 0
-		for _, h := range core.WithAnon(g) {
+		n, writes := 0, 0
+		for _, h := range c06Union(core.WithAnon(g), ge.fns) {
 			for _, c := range core.Calls(h, core.Or(core.CallMethod("cache.Cache", "SetWithExpireCtx"), isTake)) {
 				n++
 				a := core.Args(c)
 				keyArg := a[2]
 				if core.CallMethod("cache.Cache", "TakeCtx")(c.(ssa.Instruction)) {
 					keyArg = a[3]
+				} else {
+					writes++
 				}
 				if !isKeyer(core.Forward(keyArg)) {
 					o.Fail(p.InstrPos(c), "the primary row is not keyed by keyer(primaryKey)")
@@ -938,6 +982,9 @@ func c06(r *core.Run) {
 			}
 		}
 		o.Site(n, core.FuncName(g))
+		if writes == 0 || writes == n {
+			o.Unres("the write and the read of the primary row were not both found in QueryRowIndexCtx and the function values it creates (%d writes, %d reads)", writes, n-writes)
+		}
 		tw := core.Calls(g, core.CallMethod("cache.Cache", "TakeWithExpireCtx"))
 		if len(tw) != 1 || !core.ParamAt(g, 3)(core.Args(tw[0])[3]) {
 			o.Fail(p.Pos(g.Pos()), "the index lookup is not taken under the index key")
